@@ -285,6 +285,25 @@ func runC02(c *eng.Ctx) {
 		neverBeforeDeep(c, m, eng.AnyCallTo("kv.Family.removePendingOutput", famT+".removePendingOutput"), eng.AnyCallTo("kv.Family.commitEditLog", famT+".commitEditLog"), "removePendingOutput", "commitEditLog", 3)
 	})
 
+	c.Rule("OWNER", "kv/table.Cache.ReleaseReaders{only Snapshot.Close gives the retained readers back}", func() {
+		// every reader a snapshot retains is recorded in s.readers and released exactly once, by Close; a second release on an
+		// error path drops the reference another open snapshot still relies on (the cache then unmaps the file under it)
+		owner(c, "call of Cache.ReleaseReaders", func(p *eng.Prog, in ssa.Instruction) bool {
+			cc, ok := in.(ssa.CallInstruction)
+			if !ok {
+				return false
+			}
+			if cc.Common().IsInvoke() {
+				return cc.Common().Method.Name() == "ReleaseReaders"
+			}
+			g := cc.Common().StaticCallee()
+			return g != nil && baseName(g.Name()) == "ReleaseReaders"
+		}, []string{"kv/version.snapshot.Close"}, 1)
+		cl := c.Fn("kv/version.snapshot.Close")
+		rel := c.One(cl, invokeOn(".cache", "ReleaseReaders"), "s.cache.ReleaseReaders(s.readers)")
+		c.Check(eng.DependsOnField(eng.CallArgs(rel.Instr.(*ssa.Call))[0], "kv/version.snapshot.readers"), "releases-the-recorded-readers", rel.Instr, cl, "Close releases exactly the readers recorded in s.readers", "")
+	})
+
 	c.Rule("OWNER", scT+"{evict, close, cleanup}", func() {
 		owner(c, "call of Cache.Evict", eng.AnyCallTo("kv/table.Cache.Evict", scT+".Evict"), []string{"kv.store.evictFamilyFile"}, 1)
 		owner(c, "call of store.evictFamilyFile", eng.AnyCallTo("kv.store.evictFamilyFile", "kv.Store.evictFamilyFile"), []string{famT + ".deleteObsoleteFiles"}, 1)
